@@ -90,6 +90,12 @@ def source_variant(fam, v):
         body = ln.rstrip("\r\n\x0b\x0c\x1c\x1d\x1e\x85\u2028\u2029")
         out[-1] = body + " # end" + ln[len(body):]
         return "".join(out)
+    if v == 12:      # the last line changes AND its line ending is toggled (added if it had none, dropped otherwise):
+        out = list(lines)     # against variant 10 exactly one side ends with a line end, the conflict reaches the last line
+        ln = out[-1]
+        body = ln.rstrip("\r\n\x0b\x0c\x1c\x1d\x1e\x85\u2028\u2029")
+        out[-1] = body + " # END" + ("\n" if ln == body else "")
+        return "".join(out)
     if v == 9:       # one line of a run of identical adjacent lines goes (else the last line); nothing else changes
         out = list(lines)
         dup = [k for k in range(len(out) - 1) if out[k] == out[k + 1]]
@@ -330,7 +336,7 @@ def random_edit(r, nb, newfams=(7, 8, 21, 22)):
         label = ("ReId", i, cells[i]["cid"])
     elif k < 0.60:
         i = r.randrange(n)
-        cells[i]["src"] = r.choice([v for v in (0, 1, 1, 2, 2, 3, 4, 5, 6, 7, 8, 9, 10, 11) if v != cells[i]["src"]])
+        cells[i]["src"] = r.choice([v for v in (0, 1, 1, 2, 2, 3, 4, 5, 6, 7, 8, 9, 10, 11, 12) if v != cells[i]["src"]])
         label = ("EditSource", i, cells[i]["src"])
     elif k < 0.72:
         cands = [i for i in range(n) if cells[i]["kind"] == "code"]
